@@ -6,6 +6,7 @@ from env import Ob
 from guards import unref, block_facts
 from terms import fmt, subterms
 from roles import place_path
+from facts import norm_std
 import r_m1
 from r_m1 import _m1, cprover, CProver, rewrite
 
@@ -565,7 +566,9 @@ def rule_zero(env, shared):
         is_algo = any(tr == R.T_CON and nm == "buffered_iter" for tr, nm, _ in calls) and sa is None \
             and (b.info or {}).get("container") == "free"
         is_ctor = sa is not None and m.buffered_next is not None and sa == F.impl_self_adt(m.buffered_next) \
-            and b.name != m.buffered_next.name and any(tr == R.T_CHUNK and nm == "chunk_size" for tr, nm, _ in calls)
+            and b.name != m.buffered_next.name and any(tr == R.T_CHUNK and nm == "chunk_size" for tr, nm, _ in calls) \
+            and any(st["k"] == "assign" and st["rv"]["k"] == "aggregate" and st["rv"].get("ak") == "adt"
+                    and norm_std(st["rv"]["adt"]) == sa for blk in b.blocks if not blk["cleanup"] for st in blk["stmts"])
         if is_algo or is_ctor:
             targets.append(b)
     def positive_assertions(b, depth=0):
